@@ -5,6 +5,8 @@ Part 1 (E2): breadth-first search over operation histories on the real TaskManag
 Part 2 (E3): recurring tasks over an interval x offset x install-instant grid.
 Part 3 (E3): deferred batches / due tasks with every subset raising, under core.run_once()
         and under the real core.run() loop (asyncore.loop replaced by a clock-advancing stub).
+Part 4 (E3): heap shapes: every installation order of 5..7 (thorough 8) tasks with distinct due times, every single
+        suspension (for n<=6 also every pair and every suspension + move), then everything fires.
 """
 import itertools
 import math
@@ -23,7 +25,8 @@ RULE = ("part1: BFS over all operation histories (install at now+{-1,0,1,2}, ins
         "advance to next due, advance 1s; optional callback that re-installs a peer) on N one-shot tasks of the real "
         "TaskManager, deduplicated on (per task: scheduled flag, taskTime-now; heap order); a state is non-trivial/distinct "
         "by that canonical form; part2: every (interval, offset, install instant, base) of the grid, 50 periods; "
-        "part3: every (batch size<=6, raising subset, child-deferring member, due tasks raising subset, loop kind)")
+        "part3: every (batch size<=6, raising subset, child-deferring member, due tasks raising subset, loop kind); "
+        "part4: every (installation order of n distinct due times, suspended task(s), moved task)")
 ASSUMPTIONS = [
     "single thread; the only clock the scheduler reads is bacpypes.task._time (rebound to a virtual clock)",
     "core.run() is driven with asyncore.loop replaced by a stub that advances the virtual clock by the requested timeout",
@@ -31,8 +34,8 @@ ASSUMPTIONS = [
     "operation histories beyond the stated depth and clock values outside the grid are not covered",
 ]
 BOUNDS = {
-    "quick": "part1 depth<=7 on 3 tasks (6 with callbacks that re-install a peer) and depth<=6 on 4 tasks; part2 grid x 50 periods; part3 batches<=5",
-    "thorough": "part1 depth<=9 on 3 tasks (8 with callbacks) and depth<=8 on 4 tasks (7 with callbacks); part2 grid x 50 periods x 3 bases; part3 batches<=6",
+    "quick": "part1 depth<=7 on 3 tasks (6 with callbacks that re-install a peer) and depth<=6 on 4 tasks; part2 grid x 50 periods; part3 batches<=5; part4 n=5..7",
+    "thorough": "part1 depth<=9 on 3 tasks (8 with callbacks) and depth<=8 on 4 tasks (7 with callbacks); part2 grid x 50 periods x 3 bases; part3 batches<=6; part4 n=5..8",
 }
 
 # ----------------------------------------------------------------------------- part 1
@@ -449,6 +452,85 @@ def p3_shard(item, deadline):
     return acc
 
 
+# ----------------------------------------------------------------------------- part 4: heap shapes
+
+def p4_case(order, removes, moves):
+    """n one-shot tasks installed in `order` (a permutation of due times 1..n), then the tasks with the due times in
+    `removes` are suspended and those in `moves` re-installed at (time + 0.5); then everything fires.  The heap has
+    more entries than part 1 can hold, so damage that needs a deeper tree shows.  Returns (mismatch or None, log)."""
+    vclock.reset(0.0)
+    log = []
+    tasks = {}
+    for due in order:
+        t = LogTask(due, log)
+        tasks[due] = t
+        t.install_task(when=float(due))
+    expect = {due: float(due) for due in order}
+    for due in removes:
+        tasks[due].suspend_task()
+        del expect[due]
+    for due in moves:
+        tasks[due].install_task(when=due + 0.5)
+        expect[due] = due + 0.5
+    # fire: advance through every expected instant in order; the loop runs until a pass fires nothing
+    want = sorted(expect.items(), key=lambda kv: kv[1])
+    for due, when in want:
+        vclock.clock.now = when
+        for _ in range(16):
+            before = len(log)
+            core.run_once()
+            if len(log) == before:
+                break
+    vclock.clock.now = len(order) + 2.0
+    for _ in range(16):
+        before = len(log)
+        core.run_once()
+        if len(log) == before:
+            break
+    got = [(name, when) for (name, when) in log]
+    exp = [(due, when) for (due, when) in want]
+    if got != exp:
+        late = [g for g, e in zip(got, exp) if g != e][:1]
+        return ("fired-order-or-instant-differs", late), got
+    if vclock.tm().tasks:
+        return ("entries-left-in-the-heap", len(vclock.tm().tasks)), got
+    return None, got
+
+
+def p4_cases(tier):
+    nmax = 7 if tier == "quick" else 8
+    for n in range(5, nmax + 1):
+        perms = itertools.permutations(range(1, n + 1))
+        for order in perms:
+            for r in range(1, n + 1):
+                yield (order, (r,), ())
+            if n <= 6:
+                for r1, r2 in itertools.combinations(range(1, n + 1), 2):
+                    yield (order, (r1, r2), ())
+                for r in range(1, n + 1):
+                    for mv in range(1, n + 1):
+                        if mv != r:
+                            yield (order, (r,), (mv,))
+
+
+def p4_shard(item, deadline):
+    acc = Acc()
+    for k, (order, removes, moves) in enumerate(item):
+        if k % 2000 == 0 and time.time() > deadline:
+            acc.cap("part4: deadline inside the heap-shape sweep")
+            break
+        bad, got = p4_case(order, removes, moves)
+        acc.case(("p4", order, removes, moves))
+        acc.traces += 1
+        acc.transitions += len(order) + len(removes) + len(moves) + len(got)
+        acc.outcome("p4:%s" % ("ok" if bad is None else bad[0]))
+        if bad is not None:
+            acc.fail("sched:heap-shape:%s" % bad[0], {"mismatch": bad, "installed_in_order_of_due_times": order, "suspended": removes,
+                                                      "moved_by_half_a_second": moves, "fired": got},
+                     {"part": 4, "order": list(order), "removes": list(removes), "moves": list(moves)})
+    return acc
+
+
 # ----------------------------------------------------------------------------- entry points
 
 def run(tier, seed, deadline):
@@ -470,6 +552,9 @@ def run(tier, seed, deadline):
     cases3 = list(p3_cases(tier))
     run_shards(p3_shard, chunks(cases3, 32), deadline, into=acc)
     acc.info["part3 cases"] = len(cases3)
+    cases4 = list(p4_cases(tier))
+    run_shards(p4_shard, chunks(cases4, 64), t0 + span * 0.5, into=acc)
+    acc.info["part4 cases"] = len(cases4)
 
     if tier == "quick":
         plans = [(3, {}, 7), (3, {0: (1, 0)}, 6), (3, {0: (1, 1), 1: (2, 0)}, 6), (4, {}, 6)]
@@ -495,6 +580,9 @@ def replay(case):
     if part == 2:
         bad, log = p2_case(case["interval_ms"], case["offset_ms"], case["t"])
         return bad is None, "recurring %r -> %r first fires %r" % (case, bad, log[:5])
+    if part == 4:
+        bad, got = p4_case(tuple(case["order"]), tuple(case["removes"]), tuple(case["moves"]))
+        return bad is None, "install due times %r, suspend %r, move %r -> %r fired %r" % (case["order"], case["removes"], case["moves"], bad, got)
     if part == 3:
         n, raising, parent, n_tasks, traise, loop_kind = case["case"]
         bad, calls = p3_case(n, set(raising), parent, n_tasks, set(traise), loop_kind)
